@@ -224,7 +224,7 @@ def run(cfg, sync_pool=True, record_admm=True, admm_wrapper=None, series=None, e
     trace.series = series
     W, K = cfg["W"], cfg["K"]
     nw = cfg["N"] * W
-    total_stacked = sum(len(s) - W + 1 for s in series)
+    total_stacked = max(1, sum(max(0, len(s) - W + 1) for s in series))     # (callers that feed the wrong input kind override beta anyway)
     lam = make_lambda(cfg, nw)
     beta = make_beta(cfg, total_stacked)
     trace.lam, trace.beta = lam, beta
